@@ -78,7 +78,7 @@ PROPS = {
         assumptions=["no symlinked directories on artifact paths"],
     ),
     "C08": dict(
-        families=[dict(name="pipe", args=["-specs", "18,23,5"])],
+        families=[dict(name="pipe", args=["-specs", "18,23,5,27"])],
         level_text="Theorems C08_once_and_order, C08_owners_visited_first, C08_scope, C08_cycle_run/commit/checkout/status, "
                    "C08_cycle_never_executed, C08_terminates over the model of Index.Run/Commit/Checkout/Status for every "
                    "index, target list, cache and stage-command semantics. Tied to the code by running generated DAGs "
@@ -161,7 +161,7 @@ PROPS = {
         assumptions=["H collision-free on the strings involved", "users do not write through links into the cache"],
     ),
     "C07": dict(
-        families=[dict(name="effects", args=["-specs", "2,8,9,10"]), dict(name="pipe", args=["-specs", "2,8,9"])],
+        families=[dict(name="effects", args=["-specs", "2,8,9,10"]), dict(name="pipe", args=["-specs", "2,8,9"]), dict(name="corrupt", args=["-specs", "8"])],
         level_text="Theorems C07_readonly, C07_no_stage_write, C07_no_cache_write, C07_failed_step_unchanged, "
                    "C07_run_only_commands_write, C07_run_without_effects, C07_inputs_untouched, C07_skip_outputs_untouched "
                    "over the whole-program model. proof, partial: absence of other system calls is an audit of runs. Tied "
